@@ -45,14 +45,36 @@ func TestWorker(t *testing.T) { simdrv.Worker(t, engine{}) }
 // instrument names and units: a fixed list that includes the unit-word and "total" edge cases (the
 // translation rules themselves are a pure function of the description and are not decided here).
 var names = []struct{ name, unit string }{
-	{"requests", "1"}, {"requests_total", ""}, {"total", ""}, {"http.server.duration", "ms"}, {"seconds", "s"},
+	{"requests", "1"}, {"requests_total", ""}, {"total", ""}, {"net.packets.ipv6", "{packet}"}, {"http.server.duration", "ms"}, {"seconds", "s"},
 	{"latency_seconds", "s"}, {"bytes_total", "By"}, {"foo.bar_baz", "{item}"}, {"Mixed.Case", "KiBy"}, {"ratio", "1"},
 	{"queue-depth", ""}, {"cpu.time", "s"}, {"disk.io", "By/s"}, {"a_total_b", "ms"}, {"percent", "%"},
 	{"milliseconds_total", "ms"}, {"x", "d"}, {"events", "{event}"}, {"temperature", "Cel"}, {"total_total", ""},
 	{"duration_ms", "ms"}, {"size.bytes", "By"}, {"rate", "1/s"}, {"_leading", ""},
+	// names that end in a digit, two of them differing in that digit only (five places apart, so that one run
+	// can hold both; after seeded change C18-i)
+	{"net.packets.ipv4", "{packet}"}, {"requests.v2", ""},
 }
 
 var instKinds = []string{"counter_i", "counter_f", "updown_i", "gauge_i", "hist_i", "exphist_f"}
+
+// alnumSubseq reports whether the letters and digits of name occur, in order, in fam.
+func alnumSubseq(name, fam string) bool {
+	j := 0
+	for i := 0; i < len(name); i++ {
+		c := name[i]
+		if !(c >= 'a' && c <= 'z' || c >= '0' && c <= '9') {
+			continue
+		}
+		for j < len(fam) && fam[j] != c {
+			j++
+		}
+		if j == len(fam) {
+			return false
+		}
+		j++
+	}
+	return true
+}
 
 type inst struct {
 	idx      int
@@ -646,6 +668,11 @@ func (engine) Body(r *simdrv.Run) {
 			// the family name repeats a word back to back only where the instrument's own name does
 			if fam := sc.family[id]; dupWords(fam) > dupWords(in.name) {
 				r.Violate(prop, "suffix-duplicated", "suffix-duplicated", "%s %q (unit %q) is exposed as family %q: a suffix word appears twice in a row", in.kind, in.name, in.unit, fam)
+			}
+			// ... and no letter or digit of the instrument's name is lost on the way (a trailing "total" apart,
+			// which the counter suffix rules own): they appear, in order, in the family name
+			if fam := sc.family[id]; !alnumSubseq(strings.TrimSuffix(strings.ToLower(in.name), "total"), strings.ToLower(fam)) {
+				r.Violate(prop, "name-truncated", "name-truncated", "%s %q (unit %q) is exposed as family %q, which has lost characters of the name", in.kind, in.name, in.unit, fam)
 			}
 			wantKind := map[string]string{"counter_i": "counter", "counter_f": "counter", "updown_i": "gauge", "gauge_i": "gauge", "hist_i": "histogram", "exphist_f": "histogram"}[in.kind]
 			if sc.kinds[id] != wantKind {
